@@ -939,6 +939,16 @@ Proof. induction vs as [|[a v] r IH]; cbn [map sum_snd fst snd]; [lia|rewrite IH
 Lemma nz1_ge : forall x, 0 <= x -> x <= nz1 x /\ 1 <= nz1 x.
 Proof. intros x H. unfold nz1. destruct (Z.eqb_spec x 0); lia. Qed.
 
+Lemma per_account_sum : forall l m, stakes_nonneg l -> stakes_nonneg m ->
+  sum_snd (fold_left (fun m p => acc_add m (fst p) (snd p)) l m) = sum_snd m + sum_snd l /\
+  stakes_nonneg (fold_left (fun m p => acc_add m (fst p) (snd p)) l m).
+Proof.
+  induction l as [|[a v] r IH]; intros m Hl Hm; cbn [fold_left sum_snd fst snd].
+  - split; [lia|assumption].
+  - inversion Hl as [|? ? Hv Hr]; subst. cbn [snd] in Hv.
+    destruct (IH (acc_add m a v) Hr (acc_add_nonneg m a v Hm Hv)) as (H1 & H2). rewrite acc_add_sum in H1. split; [lia|exact H2].
+Qed.
+
 Lemma reward_weights_bounded : forall castor proposers validators,
   stakes_nonneg proposers -> stakes_nonneg validators ->
   sum_snd (reward_weights castor proposers validators) <= reward_weight_total proposers validators.
@@ -950,6 +960,8 @@ Proof.
   assert (Hm0 : stakes_nonneg [(castor, 3 * S' * V')]) by (constructor; [cbn [snd]; nia|constructor]).
   destruct (fold_acc_sum V' P [(castor, 3 * S' * V')]) as (H1 & H2); try assumption; try lia.
   cbn zeta in H1, H2. rewrite sum_snd_app, map_weight_sum.
+  destruct (per_account_sum Vs [] HV (Forall_nil _)) as (Hpa & _). cbn [sum_snd] in Hpa.
+  unfold per_account. rewrite Hpa, Z.add_0_l.
   match goal with |- sum_snd (filter ?f ?m) + _ <= _ => pose proof (filter_sum_le f m H2) as H3 end.
   rewrite H1 in H3. cbn [sum_snd] in H3.
   assert (A1 : V' * sum_snd P <= V' * S') by (apply Z.mul_le_mono_nonneg_l; lia).
@@ -976,4 +988,54 @@ Proof.
   - rewrite upd_other by (intro; apply Hst; congruence). rewrite upd_same. reflexivity.
   - rewrite upd_same. rewrite upd_other by (intro; apply Hst; congruence). rewrite Z.abs_eq by lia. reflexivity.
   - intros x Hx1 Hx2. rewrite !upd_other by assumption. reflexivity.
+Qed.
+
+(* ---------- ... and hands out exactly T when no group member is paid to an account that also gathers a proposer share
+   (the code assigns the validator shares, so only that overlap loses anything), for ANY miner -> account maps ---------- *)
+Lemma acc_add_dom : forall m a v x, In x (map fst (acc_add m a v)) -> In x (map fst m) \/ x = a.
+Proof.
+  induction m as [|[y w] r IH]; intros a v x; cbn [acc_add map fst In].
+  - simpl. intros [H|[]]. right. symmetry. exact H.
+  - destruct (N.eqb_spec y a); simpl; intros [H|H]; auto.
+    destruct (IH a v x H); auto.
+Qed.
+
+Lemma fold_acc_dom : forall (g : addr * Z -> Z) l m x,
+  In x (map fst (fold_left (fun m p => acc_add m (fst p) (g p)) l m)) -> In x (map fst m) \/ In x (map fst l).
+Proof.
+  intros g. induction l as [|[a s] r IH]; intros m x; cbn [fold_left map fst In]; [auto|].
+  intros H. destruct (IH _ _ H) as [H1|H1]; [|auto].
+  destruct (acc_add_dom _ _ _ _ H1); subst; auto.
+Qed.
+
+Lemma filter_all : forall (f : addr * Z -> bool) m, (forall p, In p m -> f p = true) -> filter f m = m.
+Proof.
+  intros f. induction m as [|p r IH]; intros H; cbn [filter]; [reflexivity|].
+  rewrite (H p (or_introl eq_refl)). f_equal. apply IH. intros q Hq. apply H. right; exact Hq.
+Qed.
+
+Lemma reward_weights_exact : forall castor proposers validators,
+  stakes_nonneg proposers -> stakes_nonneg validators -> 0 < sum_snd proposers -> 0 < sum_snd validators ->
+  (forall a, In a (map fst validators) -> a <> castor /\ ~ In a (map fst proposers)) ->
+  sum_snd (reward_weights castor proposers validators) = reward_weight_total proposers validators.
+Proof.
+  intros castor P Vs HP HV HS HVs Hdis. unfold reward_weights, reward_weight_total.
+  assert (E1 : nz1 (sum_snd P) = sum_snd P) by (unfold nz1; destruct (Z.eqb_spec (sum_snd P) 0); lia).
+  assert (E2 : nz1 (sum_snd Vs) = sum_snd Vs) by (unfold nz1; destruct (Z.eqb_spec (sum_snd Vs) 0); lia).
+  rewrite E1, E2.
+  assert (Hm0 : stakes_nonneg [(castor, 3 * sum_snd P * sum_snd Vs)]) by (constructor; [cbn [snd]; nia|constructor]).
+  destruct (fold_acc_sum (sum_snd Vs) P [(castor, 3 * sum_snd P * sum_snd Vs)]) as (H1 & H2); try assumption; try lia.
+  cbn zeta in H1, H2.
+  destruct (per_account_sum Vs [] HV (Forall_nil _)) as (Hpa & _). cbn [sum_snd] in Hpa.
+  rewrite filter_all.
+  - rewrite sum_snd_app, map_weight_sum. unfold per_account. rewrite Hpa, H1. cbn [sum_snd]. ring.
+  - intros p Hp. apply Bool.negb_true_iff. apply Bool.not_true_is_false. intros Hex.
+    apply existsb_exists in Hex. destruct Hex as (q & Hq & Heq). apply N.eqb_eq in Heq.
+    assert (Hqd : In (fst q) (map fst Vs)).
+    { destruct (fold_acc_dom (fun p => snd p) Vs [] (fst q)) as [[]|H]; [apply in_map; exact Hq|exact H]. }
+    destruct (Hdis _ Hqd) as (Hc & Hnp).
+    destruct (fold_acc_dom (fun p => 7 * snd p * sum_snd Vs) P [(castor, 3 * sum_snd P * sum_snd Vs)] (fst p)) as [[H|[]]|H];
+      [apply in_map; exact Hp| |].
+    + apply Hc. rewrite Heq. simpl in H. symmetry. exact H.
+    + apply Hnp. rewrite Heq. exact H.
 Qed.
